@@ -130,9 +130,9 @@ def design_flat(r, name):
                 f["mul"], f["add"] = r.randrange(2, 5), r.randrange(1, 9)
                 f["usevar"] = use_vars and r.random() < 0.6
             if kind in ("action", "astype") and s_named and not a_named and r.random() < 0.15:
-                # known defect: under `as ()` an expression without an explicit index resolves `~` to `value.<own name>`
+                # under `as ()` an expression without an explicit index binds `~` to the member's position (fix 50c5f10;
+                # it used to resolve to `value.<own name>`)
                 f["implicit"] = True
-                m.tags.append("tuple-hint-expression-without-index")
         s_fields.append(f)
     struct_ghost = a_named and r.random() < 0.4
     extra = a_named and (r.random() < (0.7 if fallible else 0.4) or any(f["kind"] == "ghost1" for f in s_fields))
